@@ -23,7 +23,8 @@ ASSUMPTIONS = ["chunk extensions and trailers are not generated (well-formed bod
 GATES = ["partitions_checked", "exhaustive_bodies", "cut:inside-size-digits", "cut:between-size-CR-and-LF",
          "cut:before-first-data-byte", "cut:inside-data", "cut:between-data-and-CR",
          "cut:between-terminating-CR-and-LF", "cut:between-chunks", "cut:inside-zero-chunk",
-         "enc:chunked", "enc:gzip", "enc:zlib", "enc:deflate", "empty_compressed_body"]
+         "enc:chunked", "enc:gzip", "enc:zlib", "enc:deflate", "empty_compressed_body",
+         "runs_with_timeouts_between_segments", "runs_with_oserror_between_segments", "chunks_over_4096_bytes"]
 
 ENC = {None: 1, "gzip": 1 | 2, "zlib": 1 | 4, "deflate": 1 | 8}
 NASTY = (b"\r", b"\n", b"\r\n", b"0\r\n\r\n", b"5\r\n", b"a", b"F", b"\r\n\r\n", b"0", b"1f\r\n")
@@ -66,11 +67,14 @@ def run_case(ctx, bodies, upper, terminate, how, pad, cuts, bufsize, readpat, ti
     for j, c in enumerate(cuts):
         sizes.append(c - prev)
         if j in timeouts:
-            sizes.append("T")
+            # a receive timeout, or (every third one) another transient OSError, before the next segment arrives
+            sizes.append("E" if (j + len(encoded)) % 3 == 0 else "T")
         prev = c
     sizes.append(len(encoded) - prev)
-    if any(x == "T" for x in sizes):
+    if any(x in ("T", "E") for x in sizes):
         ctx.hit("runs_with_timeouts_between_segments")
+    if "E" in sizes:
+        ctx.hit("runs_with_oserror_between_segments")
     params = {"bodies": [b.hex() for b in bodies], "upper": upper, "terminate": terminate, "how": how, "pad": pad,
               "cuts": list(cuts), "bufsize": bufsize, "readpat": readpat, "timeouts": list(timeouts)}
     sock = doubles.ScriptedSocket(encoded, sizes, budget=4 * len(encoded) + 4 * len(sizes) + 64)
@@ -170,6 +174,19 @@ def run(ctx):
                     if not run_case(ctx, bodies, upper, term, how, pad, cuts, bufsize, 0):
                         return
         ctx.hit("one_and_two_cut_enumerations")
+    # (2b) chunks far larger than any receive buffer (4097 .. 70000 bytes in one chunk), few cuts
+    for it in range(ctx.n(16, 400)):
+        big = bytes(rng.getrandbits(8) for _ in range(rng.choice((4097, 4200, 5000, 8193, 20000, 70000))))
+        bodies = [bytes(rng.getrandbits(8) for _ in range(rng.randint(1, 30))), big,
+                  bytes(rng.getrandbits(8) for _ in range(rng.randint(1, 30)))][rng.randint(0, 1):]
+        how = hows[it % 4] if it % 8 < 4 else None
+        upper, term = rng.random() < 0.5, rng.random() < 0.7
+        enc, _ = refchunk.encode(bodies, upper, term, how, 0)
+        L = len(enc)
+        cuts = tuple(sorted(rng.sample(range(1, L), rng.randint(0, 4))))
+        if not run_case(ctx, bodies, upper, term, how, 0, cuts, rng.choice((64, 4096, 4096, 65536)), 3):
+            return
+        ctx.hit("chunks_over_4096_bytes")
     # (3) random partitions, byte-at-a-time, tiny bufsize, bigger bodies
     for it in range(ctx.n(40000, 400000)):
         bodies = make_bodies(rng, None, rng.choice((5, 40, 40, 300)))
